@@ -125,6 +125,7 @@ type exchange struct {
 	url           string
 	header        http.Header
 	bodyLen       int
+	declared      int // > 0: the declared length, smaller than the body that arrives
 	chunked       bool
 	unframed      bool   // with chunked: no declared length and no chunked encoding either
 	breakAfter    int    // the client goes away after that many response body bytes (-1: stays)
@@ -297,6 +298,9 @@ func (ex *exchange) request() *http.Request {
 		req.TransferEncoding = []string{"chunked"}
 	} else {
 		req.ContentLength = int64(ex.bodyLen)
+		if ex.declared > 0 {
+			req.ContentLength = int64(ex.declared)
+		}
 	}
 	ctx := context.Background()
 	if ex.cancelled {
